@@ -86,7 +86,7 @@ static void* H[K_KINDS][MAXH];
 static char OWN[K_KINDS][MAXH];    /* 1 = the script owns it (destroy at end), 0 = borrowed alias */
 
 typedef struct { unsigned char* buf; size_t n, capn; long budget; FILE* f; } ostream;
-typedef struct { FILE* f; size_t len; } istream;
+typedef struct { FILE* f; size_t len; unsigned char* pipebuf; size_t pipepos; int is_pipe; } istream;
 
 static ssize_t out_write(void* c, const char* b, size_t n)
 {
@@ -116,6 +116,25 @@ static istream* in_new(const unsigned char* p, size_t n)
 	lseek(fd, 0, SEEK_SET);
 	s->f = fdopen(fd, "rb");
 	s->len = n;
+	return s;
+}
+
+/* a non-seekable input (a pipe, a socket): only read works; fseek and ftell fail.  Unbuffered, so
+   the number of bytes handed out is the position of the reader. */
+static ssize_t pipe_read(void* c, char* b, size_t n)
+{
+	istream* s = c; size_t k = s->len - s->pipepos;
+	if (k > n) k = n;
+	if (k) { memcpy(b, s->pipebuf + s->pipepos, k); s->pipepos += k; }
+	return (ssize_t)k;
+}
+static istream* in_pipe_new(const unsigned char* p, size_t n)
+{
+	cookie_io_functions_t io = { pipe_read, 0, 0, 0 };
+	istream* s = calloc(1, sizeof *s);
+	s->pipebuf = malloc(n + 1); memcpy(s->pipebuf, p, n); s->len = n; s->is_pipe = 1;
+	s->f = fopencookie(s, "r", io);
+	setvbuf(s->f, 0, _IONBF, 0);
 	return s;
 }
 
@@ -246,7 +265,7 @@ static char* cname(int i)   /* a NUL-terminated C string from a hex token */
 {
 	bytes b = unhex(tok[i]); return (char*)b.p;
 }
-static long pos_of(istream* s) { long p = ftell(s->f); if (p < 0) return -1; return (size_t)p > s->len ? (long)s->len : p; }
+static long pos_of(istream* s) { long p = s->is_pipe ? (long)s->pipepos : ftell(s->f); if (p < 0) return -1; return (size_t)p > s->len ? (long)s->len : p; }
 
 #define SENTINEL ((void*)(uintptr_t)0x5e5e5e5e5e5e5e5eULL)
 static const char* outstate(void* p) { return p == SENTINEL ? "unset" : p ? "set" : "null"; }
@@ -258,7 +277,15 @@ static int mk_obj(int ty, int n, int first, int lengths_given, sbdf_object** out
 	if (ty == SBDF_STRINGTYPEID || ty == SBDF_BINARYTYPEID)
 	{
 		char** data = malloc(sizeof(char*) * (size_t)(n + 1)); int* lens = malloc(sizeof(int) * (size_t)(n + 1));
-		for (i = 0; i < n; ++i) { bytes b = unhex(tok[first + i]); data[i] = (char*)b.p; lens[i] = (int)b.n; }
+		for (i = 0; i < n; ++i)
+		{
+			bytes b = unhex(tok[first + i]); data[i] = (char*)b.p; lens[i] = (int)b.n;
+			if (lengths_given)
+			{
+				/* the stated length is all the callee may rely on: what follows is not a terminator */
+				data[i] = malloc(b.n + 4); memcpy(data[i], b.p, b.n); memcpy(data[i] + b.n, "ZZZ", 4); free(b.p);
+			}
+		}
 		e = sbdf_obj_create_arr(vt, n, data, lengths_given ? lens : 0, out);
 		for (i = 0; i < n; ++i) free(data[i]);
 		free(data); free(lens);
@@ -444,6 +471,7 @@ static void run_line(void)
 	else if (!strcmp(op, "wvt")) { sbdf_valuetype vt; vt.id = atoi(tok[2]); printf("%d", sbdf_vt_write(OUT(1)->f, vt)); }
 	else if (!strcmp(op, "bytes")) { ostream* o = OUT(1); printf("%zu ", o->n); puthex(o->buf, o->n); }
 	else if (!strcmp(op, "in")) { bytes b = unhex(tok[2]); set(K_IN, hid(1), in_new(b.p, b.n), 1); free(b.p); printf("0"); }
+	else if (!strcmp(op, "inpipe")) { bytes b = unhex(tok[2]); set(K_IN, hid(1), in_pipe_new(b.p, b.n), 1); free(b.p); printf("0"); }
 	else if (!strcmp(op, "inw") || !strcmp(op, "intrunc") || !strcmp(op, "inpatch") || !strcmp(op, "inapp"))
 	{
 		ostream* o = OUT(2); size_t n = o->n; unsigned char* p = malloc(n + strlen(ntok > 3 ? tok[ntok - 1] : "") + 8);
